@@ -459,7 +459,7 @@ pub fn mcopy(""")),
       new="""        self.get_unlocked_balance(actor_balance)""", expect=r'available-balance:formula'),
  dict(id='C14-vest-at-current-epoch', pid='C14', file='actors/miner/src/vesting_state.rs',
       old="""    iter.peeking_take_while(|fund| fund.epoch < current_epoch).map(|f| f.amount).sum()""",
-      new="""    iter.peeking_take_while(|fund| fund.epoch <= current_epoch).map(|f| f.amount).sum()""", expect=r'take_vested'),
+      new="""    iter.peeking_take_while(|fund| fund.epoch <= current_epoch).map(|f| f.amount).sum()""", expect=r'unlock_vested:strictly-before'),
  dict(id='C14-lock-factor', pid='C14', file='actors/miner/src/monies.rs',
       old="""const LOCKED_REWARD_FACTOR_NUM: u32 = 3;""", new="""const LOCKED_REWARD_FACTOR_NUM: u32 = 1;""", expect=r'LOCKED_REWARD_FACTOR_NUM'),
  # ---------------- C06
